@@ -10,6 +10,12 @@ From DV Require Import Base.PyList Base.C18_Lists Model.C18_Logbook Proofs.C18_L
 Import ListNotations.
 Local Open Scope Z_scope.
 
+(* the hypothesis can be decided by computation; the correspondence run evaluates this check on every
+   history it generates as "uniform", so the tested histories are histories the theorems speak about *)
+Theorem C18_uniformb_sound : forall S h, uniformb S h = true -> uniform S h.
+Proof. exact uniformb_sound. Qed.
+Print Assumptions C18_uniformb_sound.
+
 (* ---- a logbook returns its records in the order they were entered ---- *)
 (* any history, no hypothesis: uids strictly increasing, each stored entry is the scalar part of
    the dictionary entered by the record() call with that number *)
@@ -255,25 +261,6 @@ Definition ex_history : list op :=
   [ORecord (ex_rec 0); ORecord (ex_rec 1); OStream; ORecord (ex_rec 2); OPop (Some (-1)); ODelSlice None None (Some (-2));
    OStream; OPickle; OSelect [10] [3; 0]].
 
-Example ex_rec_shape i : has_shape (ex_rec i) ex_shape.
-Proof.
-  constructor.
-  - repeat constructor; cbn; intuition discriminate.
-  - repeat constructor; cbn; intuition discriminate.
-  - intro k. cbn. split.
-    + intros [<-|[<-|[]]]; eexists; eauto 6.
-    + intros (d & [H|[H|[H|[H|[]]]]]); try discriminate; injection H as <- _; auto.
-  - intros k d s Hd Hs. cbn in Hs.
-    assert (Es : s = Sh []) by (destruct Hs as [E|[E|[]]]; now injection E as _ <-). subst s.
-    cbn in Hd. destruct Hd as [H|[H|[H|[H|[]]]]]; try discriminate; injection H as _ <-; cbn.
-    + constructor; [repeat constructor; cbn; intuition discriminate|constructor| |].
-      * intro k'. split; [intros []|]. intros (d' & H'). cbn in H'. intuition discriminate.
-      * intros k' d' s' H'. cbn in H'. intuition discriminate.
-    + constructor; [repeat constructor; cbn; intuition discriminate|constructor| |].
-      * intro k'. split; [intros []|]. intros (d' & H'). cbn in H'. intuition discriminate.
-      * intros k' d' s' H'. cbn in H'. intuition discriminate.
-Qed.
-
 Example C18_nonvacuous :
   uniform ex_shape ex_history /\
   ids (st_lb (final init_state ex_history)) = [0%nat] /\
@@ -282,8 +269,5 @@ Example C18_nonvacuous :
   outs init_state [ORecord (ex_rec 0); OSelect [10] [3; 0]; OSelect [] [5]] =
     [ONone; OSel (SelN [[Some 40]; [Some 0]]); OSel (Sel1 [Some 20])].
 Proof.
-  split; [|vm_compute; repeat split; reflexivity].
-  intros infos Hin. cbn in Hin.
-  repeat (destruct Hin as [E|Hin]; [try discriminate; injection E as <-; apply ex_rec_shape|]).
-  destruct Hin.
+  split; [apply uniformb_sound; vm_compute; reflexivity|vm_compute; repeat split; reflexivity].
 Qed.
